@@ -139,6 +139,7 @@ def run(rep):
                     rep.ok("canonical-leaves", "%s@%s" % (q.split("::", 1)[1], b.id.split("::")[-2]), sample="checked decoder", nontrivial=False)
     rep.floor("leaf decoder call sites on decode paths", nleaf, 3)
     leaf_codecs(rep)
+    codec_pairs(rep, wm)
     text_codec(rep)
     rep.assumptions += ["bls12_381's checked decoders accept exactly canonical, on-curve, in-subgroup encodings; bincode / serde framing is deterministic",
                         "`behaves identically afterwards` follows from byte equality for these plain-data types (not separately analysed)"]
@@ -381,6 +382,104 @@ def leaf_codecs(rep):
             rep.ok("canonical-leaves", "codec:" + nm, sample="Ok(decoded) only if the checked decoder accepted the bytes read by the framing codec")
         else:
             rep.fail("canonical-leaves", "codec:" + nm, "<%s as SerializeElement>::deserialize does not return exactly the checked decoder's result: %s" % (nm, why), site=b.loc())
+
+
+def strip_r(t):
+    while t[0] in ("refv", "copied", "deref", "box"):
+        t = t[1]
+    return t
+
+
+def codec_pairs(rep, wm):
+    """Every custom (`with = ...`) codec used by a wire type is one of the analysed writer/reader pairs, and each
+    pair is an inverse pair: the writer emits exactly what the reader consumes."""
+    prog = rep.prog
+    rep.rule("codec-pairs", "every custom codec named by a wire type is an analysed pair: leaf writers emit the canonical bytes of the whole value through the same framing codec the reader uses; sequence writers emit each element once, in order, through the element codec; the helper module forwards both directions to one foreign codec")
+    sers = {ty_str(b.desc.get("self_ty")): b for b in trait_method_impls(prog, SE, "serialize")}
+    des = {ty_str(b.desc.get("self_ty")): b for b in trait_method_impls(prog, SE, "deserialize")}
+    analysed = set()
+    for nm in sorted(sers):
+        sb, db = sers[nm], des.get(nm)
+        if db is None:
+            rep.fail("codec-pairs", nm, "SerializeElement for %s has a writer but no reader" % nm, site=sb.loc())
+            continue
+        rep.fn(sb)
+        S = Session(prog)
+        w = S.eval(sb)
+        framing_w = [q for q in S.eng.unknown_calls if q.endswith("::serialize")]
+        S2 = Session(prog)
+        S2.eval(db)
+        framing_r = [q for q in S2.eng.unknown_calls if q.endswith("::deserialize")]
+        if nm in ("G1Affine", "G2Affine", "Scalar", "G1Projective", "G2Projective"):
+            okw = w is not None and w[0] == "call" and w[1].endswith("::serialize") and len(w[2]) == 2 and strip_r(w[2][0]) == ("bytes", ("arg", 1)) \
+                or (w is not None and w[0] == "call" and len(w[2]) == 2 and S.canon(strip_r(w[2][0])) == ("bytes", ("arg", 1)))
+            def frame(q):
+                q = q.rsplit("::", 1)[0]
+                return "serde(plain)" if q in ("_::_serde::Serialize", "_::_serde::Deserialize") else q
+            same_frame = len(framing_w) == 1 and len(framing_r) == 1 and frame(framing_w[0]) == frame(framing_r[0])
+            if okw and same_frame:
+                analysed.add("SerializeElement:" + nm)
+                rep.ok("codec-pairs", nm, sample="writer = %s(canonical bytes of the value); reader decodes through %s" % (framing_w[0], framing_r[0]))
+            else:
+                rep.fail("codec-pairs", nm, "<%s as SerializeElement>::serialize does not emit the canonical bytes of the whole value through the reader's framing codec: %s ; framing %s / %s" % (
+                    nm, S.show(w)[:200] if w is not None else None, framing_w, framing_r), site=sb.loc())
+        else:
+            # sequence codecs: one iterator loop over the whole value, each element written once through the element wrapper
+            loops = [li for li in S.eng.loops.values() if li.kind == "iter"]
+            el = [q for q in S.eng.unknown_calls if q.endswith("SerializeSeq::serialize_element")]
+            src_ok = len(loops) == 1 and loops[0].src is not None and S.canon(strip_shape(loops[0].src)) == ("arg", 1)
+            wrapped = "SerWrapper" in S.show(w) if w is not None else False
+            if src_ok and el and wrapped:
+                analysed.add("SerializeElement:" + nm)
+                rep.ok("codec-pairs", nm, sample="writer iterates the whole sequence once, one serialize_element(SerWrapper(&e)) per element; reader collects next_element::<wrapper> (C16: bounded)")
+            else:
+                rep.fail("codec-pairs", nm, "<%s as SerializeElement>::serialize is not one pass over the whole sequence through the element codec (loops=%d, source ok=%s)" % (nm, len(loops), src_ok), site=sb.loc())
+    # helper modules with free serialize/deserialize functions
+    helpers = {}
+    for b in prog.bodies.values():
+        if b.kind == "Fn" and b.desc.get("name") in ("serialize", "deserialize") and is_workspace(b.id) and not b.from_expansion and b.desc.get("container") != "impl":
+            helpers.setdefault(b.id.rsplit("::", 1)[0], {})[b.desc["name"]] = b
+    for mod, fns in sorted(helpers.items()):
+        key = "fn:" + mod
+        if set(fns) != {"serialize", "deserialize"}:
+            rep.fail("codec-pairs", mod.split("::")[-1], "codec module %s lacks one direction" % mod)
+            continue
+        Sa, Sb = Session(prog), Session(prog)
+        Sa.eval(fns["serialize"])
+        Sb.eval(fns["deserialize"])
+        fw = sorted(q.rsplit("::", 1)[0] for q in Sa.eng.unknown_calls if q.endswith("::serialize"))
+        fr = sorted(q.rsplit("::", 1)[0] for q in Sb.eng.unknown_calls if q.endswith("::deserialize"))
+        if len(fw) == 1 and fw == fr:
+            analysed.add(key)
+            rep.ok("codec-pairs", mod.split("::")[-1], sample="both directions forward to %s" % fw[0])
+        else:
+            rep.fail("codec-pairs", mod.split("::")[-1], "codec module %s: writer forwards to %s, reader to %s" % (mod, fw, fr), site=fns["serialize"].loc())
+    # every `with` codec named by a wire model is analysed (generic element codec `G` = one of the leaf impls by the sealed bounds)
+    used = set()
+    for adt, m in wm.items():
+        for _, c in (m["writer"] or []):
+            if c is not None and c[0] == "with":
+                used.add((c[1], adt))
+        r = m["reader"]
+        if r is not None and r[0] == "seq":
+            for c in r[1]:
+                if c[0] == "with":
+                    used.add((c[1], adt))
+    for c, adt in sorted(used):
+        base = c
+        if c == "SerializeElement:G":
+            continue            # generic over the sealed group traits: resolved to the leaf impls above
+        if c.startswith("SerializeElement:Box<[") or c.startswith("SerializeElement:[") or c.startswith("SerializeElement:Vec<"):
+            base = "SerializeElement:" + [k for k in sers if c.split(":", 1)[1].split(",")[0].split("<")[0] == k.split(",")[0].split("<")[0]][0] if any(
+                c.split(":", 1)[1].split(",")[0].split("<")[0] == k.split(",")[0].split("<")[0] for k in sers) else c
+        if base not in analysed:
+            rep.fail("codec-pairs", "%s@%s" % (c, adt.split("::")[-1]), "wire type %s uses the custom codec %s, which is not an analysed writer/reader pair" % (adt.split("::")[-1], c))
+
+
+def strip_shape(shape):
+    while shape[0] in ("refs", "vals", "box", "refv", "deref", "copied"):
+        shape = shape[1]
+    return shape
 
 
 def text_codec(rep):
